@@ -46,6 +46,8 @@ def plan(tier, seed):
     for kind, arch in archs(tier):
         for q in range(2 if tier == "quick" else 4):
             items.append(dict(kind=kind, arch=arch, q=q))
+    for kind, arch in (("positive", [2, 2]), ("complex", [2, 2]), ("mixed", [2, 2, 2])):
+        items.append(dict(kind=kind, arch=arch, scope="stateful"))
     return items
 
 
@@ -65,11 +67,13 @@ def bases_lists(kind, n):
     return out
 
 
-def check_state(acc, kind, arch, params):
+def check_state(acc, kind, arch, params, st=None, history=None):
     L = lib()
     ts = training_statistics()
     base = dict(kind=kind, arch=arch, params=params)
-    st = build_state(kind, arch, params)
+    if history is not None:
+        base["history"] = history
+    st = build_state(kind, arch, params) if st is None else st
     n = arch[0]
     D = 2 ** n
     space = tbits(n)
@@ -202,9 +206,27 @@ def check_state(acc, kind, arch, params):
         acc.viol(f"metric:raised:{e.kind}:{e.site}", base, observed=e.tb)
 
 
+def run_stateful(acc, kind, arch):
+    from ..common import update_params, UPDATE_STYLES
+    from .c05 import stateful_sequence
+    seq = stateful_sequence(kind, arch)
+    st = build_state(kind, arch, seq[0])
+    check_state(acc, kind, arch, seq[0], st=st, history=[])
+    hist = []
+    for i, style in enumerate(UPDATE_STYLES[:2] + UPDATE_STYLES[2:3]):
+        hist = hist + [dict(update=style, to_pattern=i + 1)]
+        update_params(st, seq[i + 1], style)
+        check_state(acc, kind, arch, seq[i + 1], st=st, history=hist)
+
+
 def run_item(item):
     acc = Acc()
     kind, arch = item["kind"], item["arch"]
+    if item.get("scope") == "stateful":
+        run_stateful(acc, kind, arch)
+        acc.sample(dict(kind=kind, arch=arch, scope="stateful"), cap=1)
+        acc.states = acc.transitions = acc.traces = acc.evaluations
+        return acc
     for tag, params in param_assignments(kind, arch, npat=1, dev=0, q0=item["q"]):
         check_state(acc, kind, arch, params)
         acc.sample(dict(kind=kind, arch=arch, params=params, metrics=["fidelity", "KL", "NLL"]), cap=1)
@@ -216,5 +238,8 @@ def run_item(item):
 
 def replay(case):
     acc = Acc()
+    if case.get("history"):
+        run_stateful(acc, case["kind"], case["arch"])
+        return acc
     check_state(acc, case["kind"], case["arch"], case["params"])
     return acc
